@@ -1,5 +1,6 @@
 pub mod checks;
 pub mod db;
+pub mod e5;
 pub mod layouts;
 pub mod lsp;
 pub mod report;
